@@ -5,31 +5,31 @@ From BX Require Import Base.Prelude Base.Fsm Model.TxFsm Model.TxMgr Model.Inter
 Local Open Scope N_scope.
 
 (** * C04 *)
-Inductive C04_trace (w : world) (q : query) : c4s -> list item -> list bobs -> Prop :=
-| c4t_nil a : C04_trace w q a [] []
-| c4t_restart a r tr : C04_trace w q a r tr -> C04_trace w q a (IRestart :: r) tr
-| c4t_block a ops r ob tr a' :
-    (* replaying the accepted events of the block through the table, then the announced expiries,
-       succeeds ... *)
-    c4_timeouts (c4_txs w (Some a) ops (o_rc ob)) ob = Some a' ->
+Inductive C04_trace (w : world) (q : query) : N -> c4s -> c6s -> list item -> list bobs -> Prop :=
+| c4t_nil h a e : C04_trace w q h a e [] []
+| c4t_restart h a e r tr : C04_trace w q h a e r tr -> C04_trace w q h a e (IRestart :: r) tr
+| c4t_block h a e ops r ob tr a' :
+    (* replaying the accepted events of the block through the table, then the announced expiries, then the
+       expiries that are due (registered at this height, no accepted receipt, still BEGIN) succeeds ... *)
+    c4_expiries (h + 1) (c6_txs w (h + 1) e ops (o_rc ob)) (c4_timeouts (c4_txs w (Some a) ops (o_rc ob)) ob) = Some a' ->
     (* ... and every queried one-to-one id reports exactly the replayed status *)
     c4_check q a' ob = true ->
-    C04_trace w q a' r tr -> C04_trace w q a (IBlock ops :: r) (ob :: tr).
+    C04_trace w q (h + 1) a' (c6_txs w (h + 1) e ops (o_rc ob)) r tr -> C04_trace w q h a e (IBlock ops :: r) (ob :: tr).
 
-Lemma c04_go_spec w q : forall items a tr, c04_go w q a items tr = true <-> C04_trace w q a items tr.
+Lemma c04_go_spec w q : forall items h a e tr, c04_go w q h a e items tr = true <-> C04_trace w q h a e items tr.
 Proof.
-  induction items as [|it r IH]; intros a tr.
+  induction items as [|it r IH]; intros h a e tr.
   - simpl. destruct tr; split; intro H; try discriminate; try constructor; inversion H.
   - destruct it as [ops|]; simpl.
     + destruct tr as [|ob tr']; [split; [discriminate | intro H; inversion H]|].
-      destruct (c4_timeouts (c4_txs w (Some a) ops (o_rc ob)) ob) as [a'|] eqn:E.
+      destruct (c4_expiries (h + 1) (c6_txs w (h + 1) e ops (o_rc ob)) (c4_timeouts (c4_txs w (Some a) ops (o_rc ob)) ob)) as [a'|] eqn:E.
       * rewrite andb_true_iff, IH. split.
         -- intros [H1 H2]. eapply c4t_block; eauto.
-        -- intro H. inversion H; subst. match goal with Hx : c4_timeouts _ _ = Some _ |- _ => rewrite E in Hx; inversion Hx; subst end. auto.
-      * split; [discriminate|]. intro H. inversion H; subst. match goal with Hx : c4_timeouts _ _ = Some _ |- _ => rewrite E in Hx; discriminate end.
+        -- intro H. inversion H; subst. match goal with Hx : c4_expiries _ _ _ = Some _ |- _ => rewrite E in Hx; inversion Hx; subst end. auto.
+      * split; [discriminate|]. intro H. inversion H; subst. match goal with Hx : c4_expiries _ _ _ = Some _ |- _ => rewrite E in Hx; discriminate end.
     + rewrite IH. split; [intro H; constructor; exact H | intro H; inversion H; assumption].
 Qed.
-Theorem c04_b_spec w q items tr : c04_b w q items tr = true <-> C04_trace w q c4_init items tr.
+Theorem c04_b_spec w q items tr : c04_b w q items tr = true <-> C04_trace w q 2 c4_init c6_init items tr.
 Proof. apply c04_go_spec. Qed.
 
 (** * C02 *)
